@@ -77,15 +77,15 @@ SPEC_RE = re.compile(r"^(?:(?P<fill>.)?(?P<align>[<>=^]))?(?P<sign>[+\- ])?#?0?"
 
 
 def run(ctx: Ctx):
-    r13_1(ctx)
-    r13_2(ctx)
-    r13_3(ctx)
-    r13_4(ctx)
-    r13_5(ctx)
-    r13_6(ctx)
-    r13_7(ctx)
+    ctx.attempt("R13.1", lambda: r13_1(ctx))
+    ctx.attempt("R13.2", lambda: r13_2(ctx))
+    ctx.attempt("R13.3", lambda: r13_3(ctx))
+    ctx.attempt("R13.4", lambda: r13_4(ctx))
+    ctx.attempt("R13.5", lambda: r13_5(ctx))
+    ctx.attempt("R13.6", lambda: r13_6(ctx))
+    ctx.attempt("R13.7", lambda: r13_7(ctx))
     from ..util import persistent_state
-    persistent_state(ctx, "R13.8", [f_ for f_ in (ctx.repo.func(q_, required=False) for q_ in ('GroFile.writeline', 'GroFile._setup_write_file', 'GroFile.parse_atomlist', 'GroFile.parse_atomline', 'GroFile.determine_format', 'extract_lattice_gro', 'dump_lattice_gro')) if f_ is not None], "writing and reading a record")
+    ctx.attempt("R13.8", lambda: persistent_state(ctx, "R13.8", [f_ for f_ in (ctx.repo.func(q_, required=False) for q_ in ('GroFile.writeline', 'GroFile._setup_write_file', 'GroFile.parse_atomlist', 'GroFile.parse_atomline', 'GroFile.determine_format', 'extract_lattice_gro', 'dump_lattice_gro')) if f_ is not None], "writing and reading a record"))
 
 
 # ---------------------------------------------------------------------------
@@ -1289,6 +1289,8 @@ def r13_5(ctx: Ctx):
     gfill = set(cguards_of(fill, pmc))
     # nested spelling of the same early exit: under `natoms is None`, `if current_atom == 0: warn; return`
     empty_exit.add(canon_test(ast.parse("self._current_atom == 0", mode="eval").body, False))
+    # the write-mode test moved from close() to the top of the closing routine: everything runs under it
+    empty_exit.add(ctext("'w' in self._file.mode"))
     ctx.ob("R13.5", closing, "back-fill guarded by %s" % sorted(gfill - empty_exit), undeclared in gfill and gfill - {undeclared} <= empty_exit,
            "the count is back-filled exactly when it was not declared up front", node=fill)
     # declared count: a mismatch with the number of records written is an error
